@@ -780,7 +780,7 @@ Section Theorems.
     destruct (ek_priv parent).
     - inversion Hc; subst c; clear Hc. unfold wf_ser.
       cbn [ek_priv ek_key ek_chain ek_depth ek_fp ek_num ek_version].
-      repeat split; auto; try lia. discriminate.
+      repeat split; auto; try lia; try discriminate.
     - destruct (coord_zero (smulG il)); [discriminate|].
       destruct (parse_pub (ek_key parent)) as [P|]; [|discriminate].
       inversion Hc; subst c; clear Hc. unfold wf_ser.
@@ -794,10 +794,11 @@ Section Theorems.
     destruct ((length seed <? min_seed_bytes)%nat || (max_seed_bytes <? length seed)%nat); [discriminate|].
     rewrite half64.
     destruct ((curve_n <=? be2z (firstn 32 (hmac512 master_key seed))) || (be2z (firstn 32 (hmac512 master_key seed)) =? 0)); [discriminate|].
-    intros H; inversion H; subst m; clear H. unfold wf_ser.
+    assert (Hcc : length (skipn 32 (hmac512 master_key seed)) = 32%nat)
+      by (rewrite skipn_length, (hmac_len laws); reflexivity).
+    intros H; injection H as Hm; subst m. unfold wf_ser.
     cbn [ek_priv ek_key ek_chain ek_depth ek_fp ek_num ek_version].
-    repeat split; auto; try lia; try discriminate.
-    rewrite skipn_length, (hmac_len laws). reflexivity.
+    refine (conj Hv (conj eq_refl (conj Hcc (conj _ _)))); [lia|discriminate].
   Qed.
 
   Lemma neuter_wf k kp : wf_key k -> wf_ser k -> ek_priv k = true -> neuter k = Ok kp -> wf_key kp /\ wf_ser kp.
@@ -860,3 +861,130 @@ Section Theorems.
       apply Z.ltb_lt in H; rewrite H; reflexivity.
   Qed.
 End Theorems.
+
+(* ================================================================== Part C *)
+(* A toy instance of the primitives: the trivial group (one point), an "HMAC" that copies its
+   message, hashes that copy their input. It satisfies [prim_laws] — so the hypotheses of Part B
+   are consistent — and makes the divergences between the code and BIP-32 closed, computable
+   statements. (With the real HMAC-SHA512 the first divergence is exhibited on the real code by
+   the correspondence harness: BIP-32 test vector 4.) *)
+Module Toy.
+  Definition point : Type := unit.
+  Definition clamp (l : bytes) : bytes := map (fun c => c mod 256) l.
+  (* copies the message without its first byte, then the key *)
+  Definition hmac_copy (k d : bytes) : bytes := firstn 64 (clamp (tl d ++ k) ++ repeat 1 64).
+  (* depends on the key (the chain code) only *)
+  Definition hmac_key (k d : bytes) : bytes := firstn 64 (clamp k ++ repeat 1 64).
+  Definition smulG (_ : Z) : point := tt.
+  Definition padd (_ _ : point) : point := tt.
+  Definition ser_P (_ : point) : bytes := 2 :: repeat 0 32.
+  Definition parse_pub (b : bytes) : option point := if bytes_eqb b (ser_P tt) then Some tt else None.
+  Definition coord_zero (_ : point) : bool := false.
+  Definition is_inf (_ : point) : bool := false.
+  Definition hash160 (x : bytes) : bytes := firstn 20 (clamp x ++ repeat 0 20).
+  Definition dsha256 (x : bytes) : bytes := firstn 32 (clamp x ++ repeat 0 32).
+  Definition b58 (x : bytes) : bytes := x.
+
+  Lemma clamp_bytes l : Forall byte (clamp l).
+  Proof. unfold clamp. induction l as [|c l IH]; cbn [map]; constructor; auto. unfold byte. lia. Qed.
+
+  Lemma repeat_bytes c n : byte c -> Forall byte (repeat c n).
+  Proof. intros H. induction n; cbn [repeat]; constructor; auto. Qed.
+
+  Lemma pad_len n (x : bytes) c : length (firstn n (x ++ repeat c n)) = n.
+  Proof. rewrite firstn_length, app_length, repeat_length. lia. Qed.
+
+  Lemma pad_bytes n x c : byte c -> Forall byte (firstn n (clamp x ++ repeat c n)).
+  Proof. intros H. apply Forall_firstn', Forall_app. split; [apply clamp_bytes|apply repeat_bytes, H]. Qed.
+
+  Lemma laws_of (h : bytes -> bytes -> bytes) :
+    (forall k d, length (h k d) = 64%nat) -> (forall k d, Forall byte (h k d)) ->
+    prim_laws h smulG padd ser_P parse_pub coord_zero is_inf hash160 dsha256 b58 b58.
+  Proof.
+    intros Hlen Hb. constructor; auto.
+    - intros x. apply pad_len.
+    - intros x. apply pad_len.
+    - intros P. cbn. lia.
+    - intros [] _. unfold parse_pub. rewrite bytes_eqb_refl. reflexivity.
+    - intros b [] _. unfold parse_pub. destruct (bytes_eqb b (ser_P tt)) eqn:E; [|discriminate].
+      intros _. apply bytes_eqb_eq in E. symmetry. exact E.
+    - intros k. vm_compute. reflexivity.
+    - intros k P _. vm_compute. reflexivity.
+  Qed.
+
+  Lemma laws_copy : prim_laws hmac_copy smulG padd ser_P parse_pub coord_zero is_inf hash160 dsha256 b58 b58.
+  Proof.
+    apply laws_of; intros k d; unfold hmac_copy; [apply pad_len|apply pad_bytes; unfold byte; lia].
+  Qed.
+  Lemma laws_key : prim_laws hmac_key smulG padd ser_P parse_pub coord_zero is_inf hash160 dsha256 b58 b58.
+  Proof.
+    apply laws_of; intros k d; unfold hmac_key; [apply pad_len|apply pad_bytes; unfold byte; lia].
+  Qed.
+
+  Definition child h := child h point smulG padd ser_P parse_pub coord_zero hash160.
+  Definition spec_ckd h := spec_ckd h point smulG padd ser_P is_inf hash160.
+  Definition abs := abs point parse_pub.
+  Definition abs_out := abs_out point parse_pub.
+  Definition wf_key := wf_key point parse_pub.
+  Definition degenerate h := degenerate h point smulG padd ser_P is_inf.
+
+  (* a stored private key of one byte (scalar 1), depth 1 *)
+  Definition short_parent : ExtendedKey :=
+    mkEK [1] (repeat 0 32) 1 [0; 0; 0; 0] 0 hd_private_key_id true.
+  Definition short_parent_x : XKey point :=
+    mkX (SPriv 1) (repeat 0 32) 1 [0; 0; 0; 0] 0 hd_private_key_id.
+
+  Lemma short_parent_wf : wf_key short_parent.
+  Proof.
+    unfold wf_key, Bip32Proofs.wf_key, short_parent. cbn [ek_priv ek_key].
+    split; [constructor; [unfold byte; lia|constructor]|]. split; [cbn; lia|]. vm_compute. split; reflexivity.
+  Qed.
+End Toy.
+
+(* D2: a hardened child of a private parent whose stored key is shorter than 32 bytes is not the
+   BIP-32 child, although nothing is degenerate. *)
+Lemma short_parent_refuted :
+  exists parent x i,
+    Toy.wf_key parent /\ Toy.abs parent = Some x /\
+    hardened_start <= i /\ ek_priv parent = true /\ (length (ek_key parent) < 32)%nat /\
+    ~ Toy.degenerate Toy.hmac_copy x i /\
+    Toy.abs_out (Toy.child Toy.hmac_copy parent i) <> Toy.spec_ckd Toy.hmac_copy x i.
+Proof.
+  exists Toy.short_parent, Toy.short_parent_x, hardened_start.
+  split; [exact Toy.short_parent_wf|]. split; [reflexivity|].
+  split; [unfold hardened_start; lia|]. split; [reflexivity|]. split; [cbn; lia|].
+  split.
+  - unfold Toy.degenerate, degenerate. vm_compute. intros [H|H]; discriminate H.
+  - vm_compute. intros H. discriminate H.
+Qed.
+
+(* the two remaining, negligible-probability divergences (they need an HMAC output with
+   IL = 0, or IL = n - k_par): the code refuses IL = 0 where BIP-32 does not ... *)
+Lemma zero_il_refuted :
+  exists parent x i,
+    Toy.wf_key parent /\ Toy.abs parent = Some x /\ i < hardened_start /\
+    Toy.abs_out (Toy.child Toy.hmac_copy parent i) = Err EInvalidChild /\
+    exists c, Toy.spec_ckd Toy.hmac_copy x i = Ok c.
+Proof.
+  exists Toy.short_parent, Toy.short_parent_x, 0.
+  split; [exact Toy.short_parent_wf|]. split; [reflexivity|]. split; [unfold hardened_start; lia|].
+  split; [vm_compute; reflexivity|]. eexists. vm_compute. reflexivity.
+Qed.
+
+(* ... and returns a child with the zero scalar (stored as the empty byte string) where BIP-32
+   declares the child invalid *)
+Definition zero_child_parent : ExtendedKey :=
+  mkEK [1] (ser256 (curve_n - 1)) 1 [0; 0; 0; 0] 0 hd_private_key_id true.
+Definition zero_child_parent_x : XKey Toy.point :=
+  mkX (SPriv 1) (ser256 (curve_n - 1)) 1 [0; 0; 0; 0] 0 hd_private_key_id.
+
+Lemma zero_child_refuted :
+  exists parent x i c,
+    Toy.wf_key parent /\ Toy.abs parent = Some x /\ i < hardened_start /\
+    Toy.child Toy.hmac_key parent i = Ok c /\ ek_key c = [] /\
+    Toy.spec_ckd Toy.hmac_key x i = Err EInvalidChild.
+Proof.
+  exists zero_child_parent, zero_child_parent_x, 0. eexists.
+  split; [exact Toy.short_parent_wf|]. split; [reflexivity|]. split; [unfold hardened_start; lia|].
+  split; [vm_compute; reflexivity|]. split; [reflexivity|]. vm_compute. reflexivity.
+Qed.
